@@ -23,8 +23,11 @@ package engine
 import (
 	"go/ast"
 	"go/token"
-	"path/filepath"
+	"path"
 	"reflect"
+	"strconv"
+	"strings"
+	"unicode"
 
 	"github.com/uber-go/gopatch/internal/data"
 	"github.com/uber-go/gopatch/internal/goast"
@@ -246,9 +249,7 @@ func (r ImportReplacer) Replace(d data.Data, cl Changelog, f *ast.File) (string,
 		}
 
 	} else {
-		// TODO: more sophisticated package name guessing logic here
-		// and below.
-		pkgName = filepath.Base(r.Path)
+		pkgName = assumedPackageName(r.Path)
 	}
 
 	if !astutil.AddNamedImport(r.Fset, f, name, r.Path) {
@@ -321,7 +322,7 @@ func (r ImportsReplacer) Cleanup(d data.Data, f *ast.File, newNames []string) er
 		}
 
 		if len(pkgName) == 0 {
-			pkgName = filepath.Base(imp)
+			pkgName = assumedPackageName(imp)
 		}
 
 		// If this import was replaced by an added import, kill it.
@@ -351,6 +352,31 @@ func (r ImportsReplacer) Cleanup(d data.Data, f *ast.File, newNames []string) er
 	}
 
 	return nil
+}
+
+// assumedPackageName returns the name under which code most likely refers
+// to the package imported from the given path when the import is not named.
+// Without type information that is a guess; it is the guess the Go tools
+// make: the last element of the path, or the one before it if the last is a
+// major version ("example.com/foo/v2" is foo), without a "go-" prefix and
+// cut at the first character that cannot be part of an identifier
+// ("gopkg.in/yaml.v2" is yaml).
+func assumedPackageName(importPath string) string {
+	base := path.Base(importPath)
+	if strings.HasPrefix(base, "v") {
+		if _, err := strconv.Atoi(base[1:]); err == nil {
+			if dir := path.Dir(importPath); dir != "." {
+				base = path.Base(dir)
+			}
+		}
+	}
+	base = strings.TrimPrefix(base, "go-")
+	if i := strings.IndexFunc(base, func(r rune) bool {
+		return !unicode.IsLetter(r) && !unicode.IsDigit(r) && r != '_'
+	}); i >= 0 {
+		base = base[:i]
+	}
+	return base
 }
 
 // TODO: This is probably not the best place or method to implement this.
